@@ -5,10 +5,11 @@ CHECK = {
     "rule": "isgr part: script s = seeded list of 8-16 steps after a seeded initial population of 3 documents (local put / delete on the active or the passive "
             "peer - a put on a live document is an edit, on a tombstone a resurrection, on a missing one a creation; start / await / stop of the replication; "
             "deterministic mid-flight stop: the replicated write of one document is parked at the storage boundary (H1) while the others go through, the "
-            "replication is stopped, then the parked write goes through late or fails = the in-flight revision is lost; arming one local write inside the "
-            "compute->CAS window of the next replicated write of a document). Every script is run in the three directions push, pull, pushAndPull, each with a "
-            "seeded mode (one-shot or continuous) and checkpoint interval (default or 5 ms), over the script's seeded sub-protocol (V4 version vectors or V3 "
-            "revision trees). distinct_nontrivial = distinct (script, direction, sub-protocol, mode) in which both peers had acknowledged local writes. "
+            "replication is stopped, then the parked write goes through late or fails = the in-flight revision is lost; arming one local write or one read "
+            "inside the compute->CAS window of the next replicated write of a document; arming one transient refusal of the next pulled revision of a document "
+            "on the active while the replication is connected). Every script is run in the three directions push, pull, pushAndPull, each with a seeded mode "
+            "(one-shot or continuous), checkpoint interval (default or 5 ms) and reader mode (1 in 3 cases: a client reads the document inside the "
+            "compute->CAS window of every replicated write on the active), over the script's seeded sub-protocol (V4 version vectors or V3 revision trees). distinct_nontrivial = distinct (script, direction, sub-protocol, mode) in which both peers had acknowledged local writes. "
             "blip part: script = seeded list of client-side and server-side puts / deletes of 3 documents, one-shot pushes and pulls of a BlipTesterClient that "
             "holds its own documents, and server-side writes armed into the compute->CAS window of a pushed revision; every script is run with a V3 and a V4 "
             "client. isgr-race part (thorough tier): the isgr workload under the race detector.",
@@ -34,6 +35,8 @@ CHECK = {
         "isgr.conflicts_resolved": 30,
         "isgr.midflight_stops_with_parked_revision": 3,
         "isgr.mid_window_local_writes": 2,
+        "isgr.reads_inside_replicated_write_windows": 20,
+        "isgr.pulled_revisions_refused_once_by_a_transient_storage_error": 1,
         "blip.cases_V3": 10,
         "blip.cases_V4": 10,
         "blip.client_pushes": 83,
@@ -59,8 +62,10 @@ CHECK = {
         "then stopped; at most 7 runs, otherwise the case is inconclusive",
         "what a peer 'knows' is read from its stored metadata (admin _raw): revision tree for the revision-tree protocol, version vector (cv, pv, mv) for "
         "the version-vector protocol; bodies are read through the admin document GET of the current revision",
-        "the lost in-flight revision of a mid-flight stop is produced by failing the parked storage write after the replication has stopped (nothing is "
-        "failed while a replication is connected)",
+        "two faults are injected, both on replicated writes only: the lost in-flight revision of a mid-flight stop (the parked storage write fails after "
+        "the replication has stopped) and a transient refusal of one pulled revision on the active while the replication is connected (the revision stays "
+        "pending until the replication is restarted; a continuous replication that stalls on it is restarted by the harness). Pushed revisions are never "
+        "failed while connected: a push skips revisions the passive failed to store (doc_write_failures) by design",
         "blip part: the test client's clock is set far behind the server's so that every conflict it resolves on pull is won by the server's revision "
         "(the test client cannot push back a local win); the client re-proposes documents it pulled, so the number of rev messages it re-sends in an "
         "idle round is recorded, not judged",
